@@ -27,7 +27,7 @@ vars == <<i, st>>
 NoImage == [prog |-> "-", argv |-> << >>, envp |-> << >>, cwd |-> "-", io |-> <<"-", "-", "-">>,
             uid |-> -2, gid |-> -2, pg |-> "-"]
 NoFacts == [dio |-> << >>, raw |-> << >>, pipes |-> << >>, pgrp |-> 0]
-NoCfg == [bin |-> "-", envAlt |-> << >>, planned |-> << >>]
+NoCfg == [bin |-> "-", envAlt |-> << >>, planned |-> << >>, feed |-> ""]
 Fresh(run, c, facts) ==
     [run |-> run, c |-> [c EXCEPT !.envAlt = Range(@), !.planned = Range(@)], facts |-> facts,
      returns |-> << >>, failed |-> {}, child |-> "none", execd |-> FALSE, image |-> NoImage,
@@ -57,9 +57,15 @@ IoConsistent(s, m, d, facts, pipes) ==
 IoTags(c, dio, facts, pipes) ==
     [s \in 1..3 |-> IF IoConsistent(s, c.io[s], dio[s], facts, pipes) THEN c.io[s] ELSE "other"]
 
+\* a stdin pipe really is the caller's: what the caller wrote into the Child's stdin (cfg.feed) is what
+\* the program read from its descriptor 0 up to end-of-file (which `wait` must produce by closing it)
+FeedArrived(s, d) == (s.c.io[1] = "pipe" /\ s.facts.pipes[1].link # "") => d.stdin_read = s.c.feed
+
 ImageOf(s, d) ==
     [prog |-> d.exe, argv |-> d.argv, envp |-> d.envp, cwd |-> d.cwd,
-     io |-> IoTags(s.c, d.io, s.facts, s.facts.pipes), uid |-> d.uid, gid |-> d.gid,
+     io |-> LET t == IoTags(s.c, d.io, s.facts, s.facts.pipes)
+            IN  IF FeedArrived(s, d) THEN t ELSE [t EXCEPT ![1] = "other"],
+     uid |-> d.uid, gid |-> d.gid,
      pg |-> IF d.pgrp = d.pid THEN "own" ELSE IF d.pgrp = s.facts.pgrp THEN "parent" ELSE "other"]
 
 Anomaly(s, what) == [s EXCEPT !.anomalies = Append(@, what)]
